@@ -16,6 +16,7 @@ For every function in TARGETS each `return` statement is classified (Struct/Entr
   XSkipCopy b      r = cls.__new__(cls); r._skip_validation = True; setattr(r, k, deepcopy(v)) for every
                    item of self.__dict__; b = the flag is removed again before the return
   XStateDict       return {name: ... for (name, field) in <fields of the class> if name in self.__dict__}
+                   (directly, or through a local that receives typedpy's internal `_none_fields` entry first)
   XOther           anything else (fail closed)
 
 The hand-written model (Struct/Entry.v) assumes: constructing entry points funnel into the
@@ -45,9 +46,6 @@ TARGETS = [
     (SERIALIZATION, None, "deserialize_structure", "deserialize_structure"),
     (WRAPPERS, "Deserializer", "deserialize", "Deserializer.deserialize"),
 ]
-# methods whose presence would change how copy / pickle rebuild an instance: must stay absent
-MUST_BE_ABSENT = [(STRUCTURES, "Structure", n) for n in ("__setstate__", "__reduce__", "__reduce_ex__", "__getnewargs__",
-                                                         "__getnewargs_ex__")]
 DELEGATES = {"deserialize_structure_internal": "deserialize_structure_internal",
              "deserialize_structure": "deserialize_structure"}
 OPT_IN = "direct_trusted_mapping"
@@ -147,6 +145,8 @@ def _classify_return(ret, conds, fn, assigned):
                 ok = False
             return ("XDelegate", DELEGATES[f.id]) if ok else "XTrusted"
         return "XOther"
+    if isinstance(v, ast.Name) and fn.name == "__getstate__":
+        return _classify_state_local(v.id, ret, fn)
     if isinstance(v, ast.Name):
         return _classify_built_object(v.id, ret, fn)
     if isinstance(v, ast.DictComp):
@@ -173,6 +173,24 @@ def _classify_state_dict(dc):
     src_ok = isinstance(g.iter, ast.Call) and isinstance(g.iter.func, ast.Attribute) and g.iter.func.attr == "items" \
         and _mentions(g.iter, "fields_by_name")
     return "XStateDict" if (ok_if and src_ok) else "XOther"
+
+
+def _classify_state_local(name, ret, fn):
+    """state = {...the comprehension above...}; state[<an internal name of typedpy>] = ...; return state
+    (the entries besides the declared fields are typedpy's own bookkeeping: copy_sites.structure_getstate
+    recognises which)"""
+    from harness.genmods import copy_sites
+    stmts = [s for s in fn.body if not (isinstance(s, ast.Expr) and isinstance(s.value, ast.Constant))]
+    made = [s for s in stmts if isinstance(s, ast.Assign) and len(s.targets) == 1 and isinstance(s.targets[0], ast.Name)
+            and s.targets[0].id == name]
+    if len(made) != 1 or not isinstance(made[0].value, ast.DictComp) or ret is not stmts[-1]:
+        return "XOther"
+    wrapper = ast.Module(body=[ast.ClassDef(name="Structure", bases=[], keywords=[], body=[fn], decorator_list=[])],
+                         type_ignores=[])
+    internal = copy_sites.structure_getstate(wrapper)[3]
+    if internal not in ("GsNoInternal", "GsNonesKept"):
+        return "XOther"
+    return _classify_state_dict(made[0].value)
 
 
 def _classify_built_object(name, ret, fn):
@@ -278,13 +296,13 @@ def analyse():
         except Exception:  # noqa  a recogniser defect must not take the other properties' checks down: fail closed
             kinds = ["XOther"]
         rows.append((row, kinds or ["XOther"]))
-    absent = True
-    for rel, cls, fn in MUST_BE_ABSENT:
-        try:
-            if _find(tree(rel), cls, fn) is not None:
-                absent = False
-        except Unreadable:
-            absent = False
+    # unpickling stores the state into __dict__ and besides that touches typedpy's internal names only: either
+    # the interpreter's default (none of the methods below is defined) or the recognised __setstate__
+    try:
+        from harness.genmods import copy_sites
+        absent = copy_sites.structure_restore(tree(STRUCTURES)) in ("GsRestoreDefault", "GsRestoreInstantiated")
+    except Exception:  # noqa  fail closed
+        absent = False
     return rows, absent
 
 
@@ -306,8 +324,9 @@ def render():
              "Definition entry_sites : site_table :=",
              "  [ " + ";\n    ".join("(%s, %s)" % (E.pstr(n), E.lst([_emit_kind(k) for k in ks])) for n, ks in rows) + " ].",
              "",
-             "(* Structure defines none of __setstate__ / __reduce__ / __reduce_ex__ / __getnewargs__(_ex):",
-             "   unpickling is object.__reduce_ex__'s default: __new__ + __dict__.update(state) *)",
+             "(* unpickling is __new__ + __dict__.update(state), after which only typedpy's internal entries are set:",
+             "   either object.__reduce_ex__'s default (Structure defines none of __setstate__ / __reduce__ /",
+             "   __reduce_ex__ / __getnewargs__(_ex)) or the recognised Structure.__setstate__ *)",
              "Definition default_unpickle : bool := %s." % E.blit(absent), ""]
     return "\n".join(lines), rows, absent
 
